@@ -114,6 +114,14 @@ fn payload_for(m: &Msg, universe: u32, carried: &[Val]) -> Val {
     if let Some(a) = atoms.first() {
         els.push(Val::tuple(vec![a.clone(), a.clone(), Val::int(m.seed as i64 as i128)]));
     }
+    // a long atom that occurs only inside another term: the node name of an identifier, the module of a fun
+    match m.seed % 16 {
+        5 => els.push(Val::Pid { node: format!("n@{}", "h".repeat(256 + (m.seed >> 8) as usize % 700)), id: 1, serial: 2, creation: 3 }),
+        6 => els.push(Val::Ref { node: format!("n@{}", "é".repeat(130 + (m.seed >> 8) as usize % 300)), creation: 9, ids: vec![1, 2, 3] }),
+        7 => els.push(Val::Export("m".repeat(256 + (m.seed >> 8) as usize % 700), "f".to_string(), 2)),
+        8 => els.push(Val::Port { node: format!("n@{}", "p".repeat(256 + (m.seed >> 8) as usize % 300)), id: 77, creation: 3 }),
+        _ => {}
+    }
     Val::tuple(vec![Val::atom("payload"), Val::list(els)])
 }
 
